@@ -678,7 +678,7 @@ def exCtx : RepCtx :=
 example : Sound exCtx 0 (exObs 7 5760) :=
   { status := by decide, ctype := rfl, encVideo := by decide, encOther := by decide, iv := by decide,
     atoms := by decide, moof := rfl, mdat := rfl, emsg := rfl, trunFirst := by decide,
-    trunLast := by decide, enc := by decide, moov := rfl, pts := by decide, mediaTs := rfl,
+    trunLast := by decide, enc := by decide, moov := rfl, trex := by decide, pts := by decide, mediaTs := rfl,
     dashTs := by decide }
 
 /-- bbb-like video (4 × 960 ticks at 240 Hz, reference = itself): the hypotheses of
